@@ -71,6 +71,7 @@ var (
 		"empty", "n-withdraw2", "n-withdraw2-to4", "n-deposit2-more", "n-deposit-for2", "n-lock2", "n-assisted",
 		"n-deposit-bad", "notary-deposit", "fault-all", "halt-all",
 	}
+	alphaGov   = []string{"vote1", "vote2for1", "unvote1", "unregister1", "register1", "voter-moves", "vote2+transfer", "zero-transfer", "whole-balance", "fault-all", "block-voter2"}
 	pairSetups = []string{"empty", "vote2for1", "register2", "vote1", "vote2+transfer", "n-deposit2-short"}
 )
 
@@ -92,10 +93,12 @@ func rep(a []string, n int) [][]string {
 
 func plans(thorough bool) []plan {
 	pq := names(pairTemplates(quickPairOps))
+	full := append(append([]string{}, alphaQuick...), alphaMore...)
 	ps := []plan{
-		{Name: "single/base", Fam: famSingle, Levels: rep(alphaQuick, 2)},
+		{Name: "single/full", Fam: famSingle, Levels: rep(full, 2)},
 		{Name: "single/pairs", Fam: famSingle, Levels: [][]string{pairSetups, pq}},
 		{Name: "single/notary", Fam: famSingle, Prefix: []string{"n-setup", "empty"}, Levels: rep(alphaNotary, 2)},
+		{Name: "single/gov3", Fam: famSingle, Levels: rep(alphaGov, 3)},
 	}
 	for _, pad := range []int{0, 1, 2} {
 		ps = append(ps, plan{Name: fmt.Sprintf("multi/pad%d", pad), Fam: famMulti, Pad: pad, Levels: rep(alphaMulti, 2)})
@@ -103,24 +106,21 @@ func plans(thorough bool) []plan {
 	if !thorough {
 		return ps
 	}
-	full := append(append([]string{}, alphaQuick...), alphaMore...)
 	pt := names(pairTemplates(len(pairOps())))
 	ps = append(ps,
-		plan{Name: "single/full", Fam: famSingle, Levels: rep(full, 2)},
 		plan{Name: "single/pairs-all", Fam: famSingle, Levels: [][]string{pairSetups, pt}},
 		plan{Name: "single/pairs2", Fam: famSingle, Levels: [][]string{pq, pq}},
 		plan{Name: "single/notary3", Fam: famSingle, Prefix: []string{"n-setup", "empty"}, Levels: rep(alphaNotary, 3)},
-		plan{Name: "single-srih/base", Fam: famSingleSRIH, Levels: rep(alphaQuick, 2)},
+		plan{Name: "single-srih/full", Fam: famSingleSRIH, Levels: rep(full, 2)},
 		plan{Name: "single/base3", Fam: famSingle, Levels: rep(alphaQuick, 3)},
 	)
 	for _, pad := range []int{0, 1, 2, 3, 4, 5} {
-		ps = append(ps, plan{Name: fmt.Sprintf("multi/full/pad%d", pad), Fam: famMulti, Pad: pad, Levels: rep(alphaQuick, 2)})
-	}
-	for _, pad := range []int{0, 1, 2} {
+		ps = append(ps, plan{Name: fmt.Sprintf("multi/full/pad%d", pad), Fam: famMulti, Pad: pad, Levels: rep(full, 2)})
 		ps = append(ps, plan{Name: fmt.Sprintf("multi/deep/pad%d", pad), Fam: famMulti, Pad: pad, Levels: rep(alphaMultiDeep, 3)})
 	}
 	ps = append(ps,
 		plan{Name: "multi/pairs", Fam: famMulti, Pad: 1, Levels: [][]string{pairSetups, pq}},
+		plan{Name: "multi/notary", Fam: famMulti, Pad: 2, Prefix: []string{"n-setup", "empty"}, Levels: rep(alphaNotary, 2)},
 		plan{Name: "multi-srih/pad2", Fam: famMultiSRIH, Pad: 2, Levels: rep(alphaMulti, 2)},
 	)
 	return ps
@@ -135,6 +135,7 @@ type stats struct {
 	mints    int
 	burns    int
 	notAppl  map[string]int
+	faults   map[string]int
 	byInv    map[string]int
 	boundary vk.Counter
 	nodes    vk.Counter
@@ -143,7 +144,7 @@ type stats struct {
 }
 
 func newStats() *stats {
-	return &stats{tx: map[string]map[string]int{}, notAppl: map[string]int{}, byInv: map[string]int{}, full: vk.NewSet(), gov: vk.NewSet()}
+	return &stats{faults: map[string]int{}, tx: map[string]map[string]int{}, notAppl: map[string]int{}, byInv: map[string]int{}, full: vk.NewSet(), gov: vk.NewSet()}
 }
 
 func short(s string) string {
@@ -166,6 +167,16 @@ func (st *stats) boundaryDone(s *tokState, ev *blockEvents, tplOfTx func(i int) 
 			st.tx[t] = map[string]int{}
 		}
 		st.tx[t][e.State]++
+		if e.Fault != "" {
+			f := e.Fault
+			if i := strings.Index(f, "0x"); i > 0 { // drop hashes and offsets that vary
+				f = f[:i]
+			}
+			if len(f) > 90 {
+				f = f[len(f)-90:]
+			}
+			st.faults[t+": "+f]++
+		}
 	}
 }
 
@@ -530,11 +541,14 @@ func finish(r *vk.Run, st *stats, histories int, ps []plan) {
 		"tx_fault":                      faulted,
 		"tx_by_template":                txStats,
 		"template_not_applicable":       na,
+		"fault_reasons":                 st.faults,
 		"plans":                         planDesc,
 		"alphabet_quick":                alphaQuick,
 		"alphabet_more":                 alphaMore,
 		"alphabet_multi":                alphaMulti,
 		"alphabet_notary":               alphaNotary,
+		"alphabet_gov_depth3":           alphaGov,
+		"alphabet_multi_depth3":         alphaMultiDeep,
 		"pair_ops":                      "v1 t v2 u r2 x2 | d w z (ordered pairs of distinct ops of account 2 in one block; quick uses the first 6)",
 		"invariants":                    []string{"neo-supply", "neo-sum", "gas-sum", "candidate-votes", "voters-count", "notary-deposits", "negative", "delta-events"},
 		"rule":                          "state = decoded (NEO balances+VoteTo, GAS balances, candidates, votersCount, deposits, supplies) at a block boundary; every boundary of every history (genesis, preamble, each tree node) is decoded from raw storage, cross-checked with the getters and evaluated",
